@@ -1008,7 +1008,16 @@ impl ScriptFs {
             let mut entries = Vec::new();
             let mut final_err = None;
             let mut ret = Ok(());
-            for _ in 0..n {
+            // a filesystem may also fail on its own after some entries were accepted (an I/O error in the
+            // middle of the stream): the call as a whole then failed and the reply must carry that errno
+            let fail_after = if n > 0 && self.script.err_permille > 0 && r.chance(1, 8) { Some(r.below(n as u64) as usize) } else { None };
+            for i in 0..n {
+                if fail_after == Some(i) && i > 0 {
+                    let code = *r.pick(&[libc::EIO, libc::ENOMEM, libc::EBADF, libc::ENOENT, libc::EINTR]);
+                    final_err = Some(ErrV::Raw(code));
+                    ret = Err(io::Error::from_raw_os_error(code));
+                    break;
+                }
                 let nlen = match r.below(8) {
                     0 => 255,
                     1 => r.range(1, 8) as usize,
